@@ -5,6 +5,8 @@ import (
 	"strconv"
 	"sync"
 	"sync/atomic"
+
+	"github.com/form3tech-oss/f1/v2/internal/verifhook"
 )
 
 func newTriggerPool(m *PoolManager, numWorkers int) *TriggerPool {
@@ -34,6 +36,7 @@ func (p *TriggerPool) Trigger(ctx context.Context, numJobs int) {
 	if ctx.Err() != nil {
 		return
 	}
+	verifhook.Yield("tp.trigger.checked", p, int64(numJobs))
 	p.sendJobsForExecution(numJobs)
 }
 
@@ -59,6 +62,7 @@ func (p *TriggerPool) Start(ctx context.Context) context.Context {
 	// context on each iteration
 	go func() {
 		<-workerCtx.Done()
+		verifhook.Yield("tp.stopper.woken", p, 0)
 		p.stop()
 	}()
 
@@ -71,21 +75,26 @@ func (p *TriggerPool) running() bool {
 
 func (p *TriggerPool) stop() {
 	p.stopWorkers.Store(true)
+	verifhook.Yield("tp.stop.flagged", p, 0)
 	p.sendJobsForExecution(0)
 }
 
 func (p *TriggerPool) maxIterationsReached() {
 	p.jobsToExecute.set(0)
+	verifhook.Yield("tp.limit.discarded", p, 0)
 	p.workerCtxCancel()
 }
 
 func (p *TriggerPool) sendJobsForExecution(numJobs int) {
+	verifhook.Yield("tp.send.before", p, int64(numJobs))
 	p.jobsAvailableCond.L.Lock()
+	verifhook.Yield("tp.send.locked", p, int64(numJobs))
 
 	jobsDiscarded := p.jobsToExecute.set(numJobs)
 	p.jobsAvailableCond.Broadcast()
 
 	p.jobsAvailableCond.L.Unlock()
+	verifhook.Yield("tp.send.unlocked", p, jobsDiscarded)
 
 	for range jobsDiscarded {
 		p.manager.activeScenario.RecordDroppedIteration()
@@ -96,6 +105,7 @@ func (p *TriggerPool) waitForNewJobs() {
 	p.jobsAvailableCond.L.Lock()
 
 	for p.jobsToExecute.none() && p.running() {
+		verifhook.Yield("tp.w.park", p, 0)
 		p.jobsAvailableCond.Wait()
 	}
 	p.jobsAvailableCond.L.Unlock()
@@ -106,14 +116,20 @@ func (p *TriggerPool) run(
 	startWg *sync.WaitGroup,
 ) {
 	defer p.manager.runningWorkers.Done()
+	defer verifhook.Yield("tp.w.exit", p, 0)
 	startWg.Done()
+	verifhook.Yield("tp.w.started", p, 0)
 
 	for p.running() {
+		verifhook.Yield("tp.w.loop", p, 0)
 		if p.jobsToExecute.none() {
+			verifhook.Yield("tp.w.wait", p, 0)
 			p.waitForNewJobs()
 		}
 
+		verifhook.Yield("tp.w.beforeTake", p, 0)
 		if p.jobsToExecute.take() {
+			verifhook.Yield("tp.w.taken", p, 0)
 			iteration, err := p.manager.NextIteration()
 			if err != nil {
 				p.maxIterationsReached()
@@ -123,6 +139,7 @@ func (p *TriggerPool) run(
 			iterationState.t.Reset(strconv.FormatUint(iteration, 10))
 			p.manager.activeScenario.Run(iterationState)
 		}
+		verifhook.Yield("tp.w.next", p, 0)
 	}
 }
 
